@@ -436,6 +436,8 @@ func (g *peGen) block(stmts []ast.Stmt, ind string) (string, error) {
 			return next("let phase : Nat := o.again s")
 		case l == "err" && r == "types.ErrExit":
 			return next("let err : Bool := true")
+		case l == "err" && r == "nil":
+			return next("let err : Bool := false")
 		case l == "s.directResponse" && (r == "false" || r == "true"):
 			return next("let s : σ := o.setDirectResponse s " + r)
 		case l == "s.retryState" && r == "nil":
